@@ -36,6 +36,8 @@ var TmplPlacements = []TmplPlacement{
 		"index.html": tmplImports + "a{%%\n\tf := func() {\n\t\tdefer pkg.TickEnv(1)\n\t\tdefer pkg.Tick(2)\n@F2@\n\t}\n\tf()\n%%}b"}},
 	{Name: "t_closure_deferred_native_recovered", Main: "index.html", Files: map[string]string{
 		"index.html": tmplImports + "a{%%\n\tf := func() {\n\t\tdefer func() {\n\t\t\trecover()\n\t\t}()\n\t\tdefer pkg.TickEnv(1)\n@F2@\n\t}\n\tf()\n%%}b<i>{{ 1 }}</i>"}},
+	{Name: "t_closure_defer_native_then_text", Main: "index.html", Files: map[string]string{
+		"index.html": tmplImports + "a{%%\n\tfunc() {\n\t\tdefer pkg.Tick(1)\n\t\tfunc() {\n\t\t\tdefer func() {\n\t\t\t\trecover()\n\t\t\t}()\n@F3@\n\t\t}()\n\t}()\n%%}text{{ 1 }}<a href=\"{{ 2 }}\">x</a>"}},
 	{Name: "t_if_cond", Main: "index.html", Files: map[string]string{
 		"index.html": tmplImports + "{%%\n\tf := func() bool {\n@F2@\n\t\treturn true\n\t}\n%%}a{% if f() %}yes{% else %}no{% end %}b"}},
 	{Name: "t_for", Main: "index.html", Files: map[string]string{
